@@ -227,22 +227,28 @@ bilinear_interpolation_float (argb_t tl, argb_t tr,
 			      argb_t bl, argb_t br,
 			      float distx, float disty)
 {
-    float distxy, distxiy, distixy, distixiy;
     argb_t r;
 
-    distxy = distx * disty;
-    distxiy = distx * (1.f - disty);
-    distixy = (1.f - distx) * disty;
-    distixiy = (1.f - distx) * (1.f - disty);
+    /* Interpolate as tl + distx * (tr - tl) ...: unlike four products with
+     * the weights (1 - distx) * (1 - disty), ..., whose float values need
+     * not sum to 1, this is exact when the four samples are equal, so an
+     * image of constant alpha 1 stays at exactly 1.
+     */
+#define LERP_CHANNEL(c)							\
+    do									\
+    {									\
+	float top = tl.c + distx * (tr.c - tl.c);			\
+	float bot = bl.c + distx * (br.c - bl.c);			\
+									\
+	r.c = top + disty * (bot - top);				\
+    } while (0)
 
-    r.a = tl.a * distixiy + tr.a * distxiy +
-          bl.a * distixy  + br.a * distxy;
-    r.r = tl.r * distixiy + tr.r * distxiy +
-          bl.r * distixy  + br.r * distxy;
-    r.g = tl.g * distixiy + tr.g * distxiy +
-          bl.g * distixy  + br.g * distxy;
-    r.b = tl.b * distixiy + tr.b * distxiy +
-          bl.b * distixy  + br.b * distxy;
+    LERP_CHANNEL (a);
+    LERP_CHANNEL (r);
+    LERP_CHANNEL (g);
+    LERP_CHANNEL (b);
+
+#undef LERP_CHANNEL
 
     return r;
 }
